@@ -68,6 +68,13 @@ impl AccessControls {
         ensures r matches Ok(b) ==> b == acp_allows_modify(*self, *me, pre@) { unimplemented!() }
 }
 pub struct BackendWriteTransaction { pub o: int }
+impl BackendWriteTransaction {
+    // be_txn.modify(cid, pre, post). Ghost arguments: the partial result being applied; the backend must be handed exactly its entries,
+    // before-states and results in matching order, under this transaction's change id
+    #[verifier::external_body] pub fn modify(&mut self, Ghost(gpre): Ghost<Seq<Arc<EntrySealedCommitted>>>, Ghost(gnorm): Ghost<Seq<EntrySealedCommitted>>, Ghost(gcid): Ghost<Cid>,
+            cid: &Cid, pre: &Vec<Arc<EntrySealedCommitted>>, post: &Vec<EntrySealedCommitted>) -> (r: Result<(), OperationError>)
+        requires pre@ == gpre, post@ == gnorm, *cid == gcid { unimplemented!() }
+}
 pub struct QueryServerWriteTransaction { pub be_txn: BackendWriteTransaction, pub cid: Cid, pub trim_cid: Cid, pub schema: Schema, pub acp: AccessControls, pub g: int }
 pub uninterp spec fn m_found(qs: QueryServerWriteTransaction, me: ModifyEvent) -> Seq<Arc<EntrySealedCommitted>>;   // the impersonated search (C23 / C01 units)
 impl QueryServerWriteTransaction {
@@ -81,6 +88,11 @@ impl Plugins {
     #[verifier::external_body] pub fn run_pre_modify(qs: &mut QueryServerWriteTransaction, pre: &Vec<Arc<EntrySealedCommitted>>, cand: &mut Vec<EntryInvalidCommitted>, me: &ModifyEvent) -> (r: Result<(), OperationError>)
         ensures final(qs).cid == old(qs).cid, final(qs).trim_cid == old(qs).trim_cid, final(qs).schema == old(qs).schema, final(qs).acp == old(qs).acp,
                 r is Ok ==> final(cand)@ == m_transformed(pre@, old(cand)@, *me, *old(qs)) && final(cand)@.len() == old(cand)@.len() { unimplemented!() }
+}
+impl Plugins {
+    #[verifier::external_body] pub fn run_post_modify(Ghost(gpre): Ghost<Seq<Arc<EntrySealedCommitted>>>, Ghost(gnorm): Ghost<Seq<EntrySealedCommitted>>,
+            qs: &mut QueryServerWriteTransaction, pre: &Vec<Arc<EntrySealedCommitted>>, cand: &Vec<EntrySealedCommitted>, me: &ModifyEvent) -> (r: Result<(), OperationError>)
+        requires pre@ == gpre, cand@ == gnorm { unimplemented!() }
 }
 pub struct ModifyPartial<'x> { pub norm_cand: Vec<EntrySealedCommitted>, pub pre_candidates: Vec<Arc<EntrySealedCommitted>>, pub me: &'x ModifyEvent }
 // ---- what modify_pre_apply may hand on to be written (C24: the access controls allowed this modify on exactly the entries it will
@@ -111,6 +123,7 @@ pub open spec fn partial_ok(mp: ModifyPartial, me: ModifyEvent, qs0: QueryServer
 //@extract validate_step
 impl QueryServerWriteTransaction {
 //@extract modify_pre_apply
+//@extract modify_apply
 }
 }
 fn main(){}
